@@ -244,7 +244,7 @@ def run(ctx, chk):
             chk.undecided_("C12.R4", unit + f"@{line}", f"operands {info['vals']}")
 
     # ---- R5 driver
-    drv = ctx.program.by_name.get(("bin", "driver::driver::CMDDriver::run"))
+    drv = ctx.program.find("bin", "driver::driver::CMDDriver::run")
     if drv is None:
         chk.undecided_("C12.R5", "CMDDriver::run", "driver not found")
     else:
@@ -277,7 +277,7 @@ def run(ctx, chk):
         else:
             chk.undecided_("C12.R6", label, "no successful path with a numeric result")
     # data counter is u16, label map derives from it (range hint used by C04/C09)
-    cadt = ctx.program.adts.get("util::preprocessor_util::Context")
+    cadt = ctx.program.find_adt("util::preprocessor_util::Context")
     if cadt:
         ty = dict(cadt["variants"][0]["fields"]).get("data_counter")
         if ty == "u16":
